@@ -267,8 +267,9 @@ SPEC = {
         "and complete for the model (every oracle's outcome is accepted)",
         "cluster_ok / sorted_weak / tablets_coherent are hypotheses of the model theorems that C12_shard, C04_ring and "
         "C12_tablets_reachable show of every state the modelled code can reach; keys_ok (an NTS map has one entry per datacenter), "
-        "cho_ok and shuf_ok (drawn indices in range, shuffles are permutations) are assumed; the driver re-checks pool "
-        "well-formedness of its input with pool_wfb (C12_pool_wfb_sound)",
+        "cho_ok and shuf_ok (drawn indices in range, shuffles are permutations) are assumed; the driver re-checks its cluster "
+        "description with cluster_wfb, which for the description as the driver builds it (pool_of, assoc_pool) is exactly "
+        "cluster_ok (C12_cluster_wfb_assoc_ok, C12_cluster_wfb_complete, C12_pool_wfb_iff, C12_pool_of_sharded_has)",
         "the refiller tie replays the connection events the mock saw; inside a burst of consecutive handshakes the order in which "
         "the driver handled connections of the same shard is read off the closes (the one held longer was handled earlier); it compares the final "
         "shards per slot and the multiset of (shard, shard count) of the connections the client closed with the model's released "
